@@ -17,7 +17,7 @@ REASONS = {
     "C11": {"midpoint_not_clock", "radius"},
     "C12": {"reply_to_malformed", "no_reply_to_valid", "version_fields"},
     "C16": {"batch_larger_than_configured"},
-    "C17": {"stats_valid_requests", "stats_invalid_requests", "stats_responses", "stats_bytes", "stats_failed_sends"},
+    "C17": {"stats_valid_requests", "stats_invalid_requests", "stats_responses", "stats_bytes", "stats_failed_sends", "stats_publication"},
     "C20": {"leak", "leak_in_log"},
 }
 
